@@ -4,7 +4,8 @@
    with checked reads ([UOob] = a byte outside the length-delimited input was read).
    Spec:  Uri/Spec.v (RFC 3986 2.1 / 3 / 5.2.4, RFC 7252 6.4 / 6.5). *)
 From LibcoapV Require Import Base.Tactics Base.Bytes Wire.OptCodec Uri.Uri Uri.Split Uri.Spec
-  Uri.DotsProofs Uri.SegProofs Uri.PathProofs Uri.RebuildProofs Uri.SplitProofs.
+  Uri.DotsProofs Uri.SegProofs Uri.PathProofs Uri.RebuildProofs Uri.SplitProofs Uri.Into
+  Uri.IntoProofs.
 Local Open Scope Z_scope.
 
 (* ------------------------------------------------------------------ no overread, every input *)
@@ -187,6 +188,33 @@ Theorem C16_split_examples :
                    up_query := [] |}).
 Proof. cbv zeta. repeat split; reflexivity. Qed.
 Print Assumptions C16_split_examples.
+
+(* ------------------------------------------------------------------ URI -> options, end to end *)
+
+(* coap_uri_into_optlist on a split URI (RFC 7252 6.4 steps 5-9): whatever was in the chain,
+   then the Uri-Host / Uri-Port decision, then the specified Uri-Path and Uri-Query values *)
+Theorem C16_uri_into_optlist : forall u dst create chain po qo,
+  uri_spec_path_opts (up_path u) = Some po -> uri_spec_query_opts (up_query u) = Some qo ->
+  uri_into_optlist u dst create chain =
+  UOk (chain ++ uri_hostport_opts u dst create ++ uri_tag 11 po ++ uri_tag 15 qo).
+Proof. exact uri_into_optlist_spec. Qed.
+Print Assumptions C16_uri_into_optlist.
+
+(* ... and for every split URI, malformed escapes included: no overread, chain and host/port
+   decision untouched by ".." segments, no "." / ".." among the Uri-Path values *)
+Theorem C16_uri_into_optlist_safe : forall u dst create chain,
+  exists pa qa,
+    uri_into_optlist u dst create chain =
+    UOk (chain ++ uri_hostport_opts u dst create ++ uri_tag 11 pa ++ uri_tag 15 qa) /\
+    Forall (fun v => uri_kind v = 0) pa.
+Proof. exact uri_into_optlist_safe. Qed.
+Print Assumptions C16_uri_into_optlist_safe.
+
+(* the port coap_split_uri fills in when the URI has none is the one that needs no Uri-Port *)
+Theorem C16_default_port_no_option : forall name dport ponly sch,
+  In (name, dport, ponly, sch) uri_schemes -> uri_scheme_default_port sch = dport.
+Proof. exact uri_default_port_no_option. Qed.
+Print Assumptions C16_default_port_no_option.
 
 (* ------------------------------------------------------------------ what was repaired *)
 (* The faithful model of the code as it was violates the statements above; the witnesses were
